@@ -202,36 +202,34 @@ theorem xargsSkip_suffix (b : Bool) (l : List String) : xargsSkip b l <:+ l := b
           · exact List.IsSuffix.trans (ih false) (List.suffix_cons t rest)
 
 /-- xargs: the delegated text is the re-quoting of a non-empty suffix of the command line -/
+theorem xargsUnsafe_asks (l : List String) (c : Classification) (h : xargsUnsafe l = some c) : c.action = "ask" := by
+  induction l with
+  | nil => simp [xargsUnsafe] at h
+  | cons t rest ih =>
+    unfold xargsUnsafe at h
+    split at h
+    · simp at h
+    · split at h
+      · split at h
+        · split at h <;> (simp at h; subst h; rfl)
+        · simp at h; subst h; rfl
+      · split at h
+        · simp at h; subst h; rfl
+        · split at h
+          · simp at h; subst h; rfl
+          · exact ih h
+
 theorem xargs_inner_suffix (tokens : List String) (c : Classification)
     (hc : xargsClassify tokens = c) (hd : c.action = "delegate") :
     ∃ inner, inner ≠ [] ∧ inner <:+ tokens.drop 1 ∧ c.innerCommand = some (bashJoin inner) := by
   unfold xargsClassify at hc
   split at hc
   · subst hc; simp [ask] at hd
-  · split at hc
-    · -- interactive flag
-      rename_i c' hu
+  · simp only at hc
+    split at hc
+    · rename_i c' hu
       subst hc
-      exfalso
-      have : ∀ l c', xargsUnsafe l = some c' → c'.action = "ask" := by
-        intro l
-        induction l with
-        | nil => intro c' h; simp [xargsUnsafe] at h
-        | cons t rest ih =>
-          intro c' h
-          unfold xargsUnsafe at h
-          split at h
-          · simp at h
-          · split at h
-            · split at h
-              · split at h <;> (simp at h; subst h; rfl)
-              · simp at h; subst h; rfl
-            · split at h
-              · simp at h; subst h; rfl
-              · split at h
-                · simp at h; subst h; rfl
-                · exact ih c' h
-      have := this _ _ hu
+      have := xargsUnsafe_asks _ _ hu
       rw [this] at hd
       simp at hd
     · split at hc
